@@ -16,6 +16,10 @@ package core
 //@ opt opaque-callees (*Pool).RemoveStale,(*Pool).Add,(*Pool).Remove
 //@ requires bc != nil && block != nil
 //@ call dao::(*Simple).Persist requires[halted] arg0 == systemInterop.DAO ==> !v.failed
+// (C06) the pool is re-verified against the NEW height: by the time stale transactions are removed
+// the chain's height is already the stored block's index (a transaction valid until exactly this
+// block must not survive it in the pool - blocks made from the pool are not re-verified).
+//@ call (*Pool).RemoveStale requires[height] bc.blockHeight == block.Index
 
 //@ prop C06
 //@ import block github.com/nspcc-dev/neo-go/pkg/core/block
